@@ -3,7 +3,7 @@
    tables that the C17 theorems rely on. *)
 From Coq Require Import ZArith List Bool.
 Require Import Bits.Lib.Result Bits.Lib.Bytes Bits.Spec.P2p Bits.Model.P2pFrame Bits.Model.P2pCodec Bits.Proofs.P2pFrame.
-Require Bits.Gen.P2pGen.
+Require Bits.Gen.P2pGen Bits.Spec.P2pNet.
 Import ListNotations.
 Import Coq.Init.Byte.
 Local Open Scope Z_scope.
@@ -16,11 +16,10 @@ Theorem gen_regtest_start_is_spec : Bits.Gen.P2pGen.regtest_start = regtest_star
 Proof. vm_compute. reflexivity. Qed.
 
 (* set_magic_start_bytes(network) installs the start string of that network; mainnet after import *)
-Theorem gen_magic_of_network_is_spec :
-  Bits.Gen.P2pGen.magic_of_network =
-  [ ([x6d;x61;x69;x6e;x6e;x65;x74], mainnet_start)     (* "mainnet" *)
-  ; ([x74;x65;x73;x74;x6e;x65;x74], testnet_start)     (* "testnet" *)
-  ; ([x72;x65;x67;x74;x65;x73;x74], regtest_start) ].  (* "regtest" *)
+Theorem gen_magic_of_network_is_spec : Bits.Gen.P2pGen.magic_of_network = Bits.Spec.P2pNet.network_magics.
+Proof. vm_compute. reflexivity. Qed.
+(* what set_magic_start_bytes does with names it must refuse: an exception, and the global unchanged (probed) *)
+Theorem gen_refused_network_leaves_magic : Bits.Gen.P2pGen.magic_after_refused_select = Bits.Gen.P2pGen.magic_default.
 Proof. vm_compute. reflexivity. Qed.
 Theorem gen_magic_default_is_mainnet : Bits.Gen.P2pGen.magic_default = mainnet_start.
 Proof. vm_compute. reflexivity. Qed.
